@@ -34,6 +34,15 @@ CLAIMED = {
    text="Lean theorems: removed candidates absent; output rankings are the inputs filtered in place; weight of every resulting content = summed weight of the inputs mapping to it (condensed or not); weight lost = weight of ballots that end up empty; add_missing appends exactly the unlisted candidates; tie expansion yields prod(k_i!) equal-weight ballots adding up to the original. Correspondence on remove_cand (3 input kinds x flags), add_missing_cands, expand/resolve ties and the three cleaning functions; monitors recompute weight maps and first-place/Borda totals independently.",
    note="Trusted: Lean kernel + standard axioms; itertools.groupby/permutations modelled by own enumeration. Open finding F-C12.",
    ref="DESIGN.md §4 C12"),
+
+ "C13": dict(
+   text="In the Lean model IRV, SNTV and SequentialRCV are STV(m=1), Plurality and STV with the full-weight transfer; theorems unfold TopTwo into Plurality(2) -> remove the others -> Plurality(1) and Alaska into Plurality(m_1) -> remove losers -> STV(m_2) renumbered. The content is the tie: the implementation's own IRV/SNTV/SequentialRCV/TopTwo/Alaska classes are compared with these definitions and, on the implementation itself, with separately constructed component elections under the same random stream; TopTwo's head-to-head winner is recomputed independently.",
+   note="Trusted: Lean kernel + standard axioms; fixed random stream by seeding; component comparison for Alaska only on runs without random draws.",
+   ref="DESIGN.md §4 C13"),
+ "C20": dict(
+   text="Lean theorems: each validator rejects iff the documented predicate holds (some ballot without ranking / with a tied position; m outside 1..n; Alaska stage sizes; negative or increasing vector <-> not(non-negative and pairwise non-increasing); rating arguments; generator and interval-combination conditions), with exact boundaries, and a rejected request is `raised e` (no state list). Correspondence + monitors on one stream per documented precondition, violated by the smallest margin and grossly, offending ballot first/middle/last, plus the accepting boundary value.",
+   note="Trusted: Lean kernel + standard axioms; Python round(x, 8) evaluated by the harness. Repaired defect F-C20 (zero budget accepted; fix: commit 07ede19).",
+   ref="DESIGN.md §4 C20"),
 }
 TECH = "Lean 4 kernel-checked theorems over a hand-written executable model + differential correspondence check of the model against /repo/src + independent Python monitors"
 
